@@ -34,6 +34,8 @@
    * "when y is one it agrees with addition": C02_fma_add_agree(_one) - y decoding to +1E+0 (coefficient 1, exponent 0),
      for ALL patterns x, z (NaN, infinite, non-canonical included) and all modes: equal outcome lists.  "One" must
      have quantum 0: Example C02_one_needs_quantum_0 (y = 10E-1).
+   * what is executed: the correspondence run judges the crate's fma against [expected OFma md [x; y; z]]; C02_dispatch
+     says this is the list m_fma md x y z of accepted (bits, raised flags) pairs that all theorems here talk about.
    * "returns without panicking ... total": C02_fma_total / C02_fma_single_outcome are about the MODEL (its outcome
      list is never empty; exactly one outcome without NaN operands).  Totality of the Rust implementation is not a
      Coq theorem: it is checked by the differential harness (a panic is a mismatch against a non-empty list).
@@ -42,9 +44,15 @@
    rounding only, the standard's rule for decimal); the content of the NaN rule (C12); the implementation itself. *)
 From Coq Require Import ZArith Reals Bool List.
 From Flocq Require Import Core.Core Calc.Bracket.
-From DV Require Import Base RoundProofs SpecProofs Bid BidProofs Arith ArithProofs OpsArith OpsArithProofs FmaProofs.
+From DV Require Import Base RoundProofs SpecProofs Bid BidProofs Arith ArithProofs OpsArith OpsArithProofs FmaProofs
+  Judge DispatchProofs.
 Import ListNotations.
 Open Scope Z_scope.
+
+(* ---------- dispatch: the harness operation "fma" is judged against m_fma ---------- *)
+Theorem C02_dispatch : forall md x y z, expected OFma md [x; y; z] = Exact (m_fma md x y z).
+Proof. exact dispatch_fma. Qed.
+Print Assumptions C02_dispatch.
 
 (* ---------- single rounding of the exact x*y+z ---------- *)
 Theorem C02_fma : forall md x y z sx cx qx sy cy qy sz cz qz,
